@@ -384,13 +384,9 @@ func main() {
 			)
 		}
 	}
-	pre := 1
-	if r.Thorough() {
-		pre = 2
-	}
 	var scs []sched.Scenario
 	for _, h := range hs {
-		p := pre
+		p := 1
 		if len(h.threads) == 1 {
 			p = 0 // a single writer: only the timer can interleave; its firing points are explored with 1 preemption
 			if !h.generic {
@@ -398,6 +394,16 @@ func main() {
 			}
 		}
 		scs = append(scs, scenario(h, p))
+	}
+	if r.Thorough() {
+		// concurrent histories again with <=2 preemptions, after the quick bounds (the budget is shared
+		// per scenario, leftovers roll on)
+		for _, h := range hs {
+			if len(h.threads) > 1 {
+				h.name += " [deep]"
+				scs = append(scs, scenario(h, 2))
+			}
+		}
 	}
 	r.Rule("every execution (schedules within the preemption bound) of the listed histories x a crash image before and after every write-path syscall (open/write/writev/link/rename/fdatasync/close), after every returned operation, and with torn prefixes (1 byte, half, all-but-one) of every write; each image reopened by a fresh FSTree; non-trivial = distinct (history, set of syscall boundaries captured) classes")
 	r.Assume("process-crash model: bytes handed to the kernel survive, O_TMPFILE data without a link does not", "os.Remove in Delete is atomic (images before/after it)")
